@@ -63,6 +63,7 @@ impl Tr for u16 {
 #[kani::proof]
 #[kani::stub(std::process::abort, abort_stub)]
 fn q_ok_arc_sized() {
+    crate::ghost::arm();
     let a = Arc::new(7u32);
     overflow_contract(&a, || core::mem::forget(a.clone()));
     core::mem::forget(a);
@@ -70,6 +71,7 @@ fn q_ok_arc_sized() {
 #[kani::proof]
 #[kani::stub(std::process::abort, abort_stub_checked)]
 fn q_abort_arc_sized() {
+    crate::ghost::arm();
     let a = Arc::new(7u32);
     abort_contract(&a, || core::mem::forget(a.clone()));
     core::mem::forget(a);
@@ -79,6 +81,7 @@ fn q_abort_arc_sized() {
 #[kani::unwind(4)]
 #[kani::stub(std::process::abort, abort_stub)]
 fn q_ok_arc_slice() {
+    crate::ghost::arm();
     let a: Arc<[u16]> = Arc::from(&[1u16, 2][..]);
     overflow_contract(&a, || core::mem::forget(a.clone()));
     core::mem::forget(a);
@@ -87,6 +90,7 @@ fn q_ok_arc_slice() {
 #[kani::unwind(4)]
 #[kani::stub(std::process::abort, abort_stub_checked)]
 fn q_abort_arc_slice() {
+    crate::ghost::arm();
     let a: Arc<[u16]> = Arc::from(&[1u16, 2][..]);
     abort_contract(&a, || core::mem::forget(a.clone()));
     core::mem::forget(a);
@@ -100,6 +104,7 @@ fn mk_dyn() -> Arc<dyn Tr> {
 #[kani::proof]
 #[kani::stub(std::process::abort, abort_stub)]
 fn q_ok_arc_dyn() {
+    crate::ghost::arm();
     let a = mk_dyn();
     overflow_contract(&a, || core::mem::forget(a.clone()));
     core::mem::forget(a);
@@ -107,6 +112,7 @@ fn q_ok_arc_dyn() {
 #[kani::proof]
 #[kani::stub(std::process::abort, abort_stub_checked)]
 fn q_abort_arc_dyn() {
+    crate::ghost::arm();
     let a = mk_dyn();
     abort_contract(&a, || core::mem::forget(a.clone()));
     core::mem::forget(a);
@@ -117,6 +123,7 @@ fn q_abort_arc_dyn() {
 #[kani::unwind(4)]
 #[kani::stub(std::process::abort, abort_stub)]
 fn q_ok_thin() {
+    crate::ghost::arm();
     let t = ThinArc::from_header_and_slice(3u8, &[1u16, 2]);
     let w = core::mem::ManuallyDrop::new(Arc::from_thin(unsafe { core::ptr::read(&t) }));
     overflow_contract(&*w, || core::mem::forget(t.clone()));
@@ -126,6 +133,7 @@ fn q_ok_thin() {
 #[kani::unwind(4)]
 #[kani::stub(std::process::abort, abort_stub_checked)]
 fn q_abort_thin() {
+    crate::ghost::arm();
     let t = ThinArc::from_header_and_slice(3u8, &[1u16, 2]);
     let w = core::mem::ManuallyDrop::new(Arc::from_thin(unsafe { core::ptr::read(&t) }));
     abort_contract(&*w, || core::mem::forget(t.clone()));
@@ -136,6 +144,7 @@ fn q_abort_thin() {
 #[kani::unwind(4)]
 #[kani::stub(std::process::abort, abort_stub)]
 fn q_ok_thin_with_arc() {
+    crate::ghost::arm();
     let t = ThinArc::from_header_and_slice(3u8, &[1u16, 2]);
     let w = core::mem::ManuallyDrop::new(Arc::from_thin(unsafe { core::ptr::read(&t) }));
     overflow_contract(&*w, || t.with_arc(|a| core::mem::forget(a.clone())));
@@ -145,6 +154,7 @@ fn q_ok_thin_with_arc() {
 #[kani::unwind(4)]
 #[kani::stub(std::process::abort, abort_stub_checked)]
 fn q_abort_thin_with_arc() {
+    crate::ghost::arm();
     let t = ThinArc::from_header_and_slice(3u8, &[1u16, 2]);
     let w = core::mem::ManuallyDrop::new(Arc::from_thin(unsafe { core::ptr::read(&t) }));
     abort_contract(&*w, || t.with_arc(|a| core::mem::forget(a.clone())));
@@ -157,6 +167,7 @@ macro_rules! offset_family {
         #[kani::proof]
         #[kani::stub(std::process::abort, abort_stub)]
         fn $ok() {
+            crate::ghost::arm();
             let $a = Arc::new(0x55aau16);
             let $o = core::mem::ManuallyDrop::new(Arc::into_raw_offset(unsafe { core::ptr::read(&$a) }));
             overflow_contract(&$a, || $op);
@@ -165,6 +176,7 @@ macro_rules! offset_family {
         #[kani::proof]
         #[kani::stub(std::process::abort, abort_stub_checked)]
         fn $ab() {
+            crate::ghost::arm();
             let $a = Arc::new(0x55aau16);
             let $o = core::mem::ManuallyDrop::new(Arc::into_raw_offset(unsafe { core::ptr::read(&$a) }));
             abort_contract(&$a, || $op);
@@ -189,6 +201,7 @@ offset_family!(q_ok_offset_borrow_clone_arc, q_abort_offset_borrow_clone_arc, |o
 #[kani::proof]
 #[kani::stub(std::process::abort, abort_stub)]
 fn q_ok_union_first() {
+    crate::ghost::arm();
     let a = Arc::new(0x1234u16);
     let u = core::mem::ManuallyDrop::new(ArcUnion::<u16, u64>::from_first(unsafe { core::ptr::read(&a) }));
     overflow_contract(&a, || core::mem::forget((*u).clone()));
@@ -197,6 +210,7 @@ fn q_ok_union_first() {
 #[kani::proof]
 #[kani::stub(std::process::abort, abort_stub_checked)]
 fn q_abort_union_first() {
+    crate::ghost::arm();
     let a = Arc::new(0x1234u16);
     let u = core::mem::ManuallyDrop::new(ArcUnion::<u16, u64>::from_first(unsafe { core::ptr::read(&a) }));
     abort_contract(&a, || core::mem::forget((*u).clone()));
@@ -205,6 +219,7 @@ fn q_abort_union_first() {
 #[kani::proof]
 #[kani::stub(std::process::abort, abort_stub)]
 fn q_ok_union_second() {
+    crate::ghost::arm();
     let a = Arc::new(0x1234u16);
     let u = core::mem::ManuallyDrop::new(ArcUnion::<u64, u16>::from_second(unsafe { core::ptr::read(&a) }));
     overflow_contract(&a, || core::mem::forget((*u).clone()));
@@ -213,6 +228,7 @@ fn q_ok_union_second() {
 #[kani::proof]
 #[kani::stub(std::process::abort, abort_stub_checked)]
 fn q_abort_union_second() {
+    crate::ghost::arm();
     let a = Arc::new(0x1234u16);
     let u = core::mem::ManuallyDrop::new(ArcUnion::<u64, u16>::from_second(unsafe { core::ptr::read(&a) }));
     abort_contract(&a, || core::mem::forget((*u).clone()));
